@@ -16,6 +16,7 @@ from __future__ import annotations
 import collections
 import hashlib
 import pickle
+import typing
 
 from sim.loop import HarnessError
 from worlds import tx_island
@@ -33,6 +34,7 @@ class Driver:
         self.isl = isl
         self.db_user_schema = schema               # dbview.Database.user_schema_pickle (unpickled)
         self.db_user_schema_pickle = pickle.dumps(schema, -1)   # ... and the bytes object itself
+        self.global_schema = isl['FlatSchema']('G0', modules=())    # DatabaseIndex._global_schema_pickle (unpickled)
         self.modaliases = isl['DEFAULT_ALIASES']   # DatabaseConnectionView._modaliases
         self.config = isl['EMPTY']                 # ._config (session config)
         self.last_comp_state = None                # ._last_comp_state
@@ -50,6 +52,7 @@ class Driver:
         self.in_tx_root_user_schema = None
         self.in_tx_root_user_schema_pickle = None
         self.in_tx_user_schema = None
+        self.in_tx_global_schema = None
         self.tx_error = False
 
     # dbview.pyx get_modaliases/set_modaliases, get_session_config/set_session_config
@@ -107,11 +110,18 @@ class Driver:
         self.in_tx_root_user_schema = self.db_user_schema
         self.in_tx_root_user_schema_pickle = self.db_user_schema_pickle
         self.in_tx_user_schema = self.db_user_schema
+        self.in_tx_global_schema = self.global_schema
 
     # dbview.pyx:1053-1071  _apply_in_tx()
     def apply_in_tx(self, unit):
         if unit.user_schema is not None:
             self.in_tx_user_schema = pickle.loads(unit.user_schema)
+        if unit.global_schema is not None:
+            self.in_tx_global_schema = pickle.loads(unit.global_schema)
+
+    # dbview.pyx get_global_schema_pickle()
+    def get_global_schema(self):
+        return self.in_tx_global_schema if self.in_tx else self.global_schema
 
     # dbview.pyx:1073-1080  start_implicit()
     def start_implicit(self, unit):
@@ -122,13 +132,15 @@ class Driver:
         self.apply_in_tx(unit)
 
     # dbview.pyx:1166-1206  commit_implicit_tx()
-    def commit_implicit_tx(self, user_schema):
+    def commit_implicit_tx(self, user_schema, global_schema=None):
         assert self.in_tx
         self.config = self.in_tx_config
         self.modaliases = self.in_tx_modaliases
         if user_schema is not None:
             self.db_user_schema = pickle.loads(user_schema)
             self.db_user_schema_pickle = user_schema
+        if global_schema is not None:
+            self.global_schema = pickle.loads(global_schema)
         self.reset_tx_state()
 
     # dbview.pyx:1077-1160  on_success()
@@ -137,6 +149,8 @@ class Driver:
             if unit.user_schema is not None:
                 self.db_user_schema = pickle.loads(unit.user_schema)
                 self.db_user_schema_pickle = unit.user_schema
+            if unit.global_schema is not None:
+                self.global_schema = pickle.loads(unit.global_schema)
         if unit.modaliases is not None:
             self.set_modaliases(unit.modaliases)
         if unit.tx_commit:
@@ -147,9 +161,22 @@ class Driver:
             if unit.user_schema is not None:
                 self.db_user_schema = pickle.loads(unit.user_schema)
                 self.db_user_schema_pickle = unit.user_schema
+            if unit.global_schema is not None:
+                self.global_schema = pickle.loads(unit.global_schema)
             self.reset_tx_state()
         elif unit.tx_rollback:
             self.reset_tx_state()
+
+
+class St(typing.NamedTuple):
+    """What a PostgreSQL-style transaction exposes at one point."""
+    schema: tuple          # (user schema tag, frozenset of modules)
+    aliases: typing.Any
+    config: typing.Any
+    gschema: tuple = ('G0', frozenset())    # (global schema tag, frozenset of roles)
+
+
+ROLES = ('r1', 'r2')
 
 
 class _BackendFailure(Exception):
@@ -235,7 +262,7 @@ class World:
         self.G0 = isl['FlatSchema']('G0')
         E = isl['EMPTY']
         dv = self.dv = Driver(isl, U0)
-        m = self.m = Model((('U0', frozenset(['default', 'std'])), isl['DEFAULT_ALIASES'], E))
+        m = self.m = Model(St(('U0', frozenset(['default', 'std'])), isl['DEFAULT_ALIASES'], E))
         self.flags = set()          # history features, for signatures
         self.nserial = 0
         self.in_block_steps = 0
@@ -250,6 +277,7 @@ class World:
         return self.result()
 
     obs_key = 7
+    global_ddl = True       # the pooled mode shares one global schema between sessions: off there
 
     def new_request_key(self):
         return 7        # the direct mode has one request in flight at a time
@@ -266,15 +294,17 @@ class World:
         t, isl = self.tape, self.isl
         qlast = isl['qlast']
         m = self.m
-        #          query start commit rollback declare release rollback_to ddl alias reset config
+        #          query start commit rollback declare release rollback_to ddl alias reset config gddl
         if m.in_tx and m.err:
-            w = [1, 1, 1, 3, 1, 1, 6, 1, 1, 0, 1]
+            w = [1, 1, 1, 3, 1, 1, 6, 1, 1, 0, 1, 0]
         elif m.in_tx:
-            w = [3, 1, 2, 1, 5, 3, 5, 4, 2, 1, 2]
+            w = [3, 1, 2, 1, 5, 3, 5, 4, 2, 1, 2, 2]
         else:
-            w = [2, 7, 1, 1, 1, 1, 1, 2, 1, 1, 1]
+            w = [2, 7, 1, 1, 1, 1, 1, 2, 1, 1, 1, 1]
+        if not self.global_ddl:
+            w[-1] = 0
         kind = ('query', 'start', 'commit', 'rollback', 'declare', 'release', 'rollback_to',
-                'ddl', 'alias', 'reset_alias', 'config')[t.weighted(w, 'stmt_kind')]
+                'ddl', 'alias', 'reset_alias', 'config', 'gddl')[t.weighted(w, 'stmt_kind')]
         arg = ''
         if kind == 'query':
             ql = isl['FakeQuery']()
@@ -297,6 +327,12 @@ class World:
             reject = bool(self.cfg['preject']) and t.chance(self.cfg['preject'], 100, 'ddl_reject')
             ql = isl['mkddl'](op, mod, reject)
             arg = f'{op}:{mod}' + (':reject' if reject else '')
+        elif kind == 'gddl':
+            role = ROLES[t.draw(len(ROLES), 'gddl_role')]
+            have = role in self.m.current().gschema[1]
+            op = ('drop' if have else 'add') if t.draw(8, 'gddl_valid') else ('add' if have else 'drop')
+            ql = isl['mkddl'](op, role, False, True)
+            arg = f'{op}:{role}'
         elif kind == 'alias':
             mod = ('default',) + MODS
             mod = mod[t.draw(len(mod), 'alias_mod')]
@@ -359,6 +395,9 @@ class World:
                 return False
             have = ql.tag in cur[0][1]
             return (not have) if ql.op == 'add' else have
+        if kind == 'gddl':
+            have = ql.tag in cur.gschema[1]
+            return (not have) if ql.op == 'add' else have
         if kind == 'alias':
             return ql.decl.module in cur[0][1]
         if kind == 'reset_alias':
@@ -381,6 +420,9 @@ class World:
             return not (m.in_tx and any(s[0] == arg for s in m.sps))
         if kind == 'ddl':
             have = ql.tag in cur[0][1]
+            return have if ql.op == 'add' else not have
+        if kind == 'gddl':
+            have = ql.tag in cur.gschema[1]
             return have if ql.op == 'add' else not have
         return False
 
@@ -427,9 +469,13 @@ class World:
         elif kind == 'ddl':
             tag, mods = cur[0]
             mods = (mods | {ql.tag}) if ql.op == 'add' else (mods - {ql.tag})
-            m.set(((tag + ('+' if ql.op == 'add' else '-') + ql.tag, mods), cur[1], cur[2]))
+            m.set(cur._replace(schema=(tag + ('+' if ql.op == 'add' else '-') + ql.tag, mods)))
+        elif kind == 'gddl':
+            gtag, roles = cur.gschema
+            roles = (roles | {ql.tag}) if ql.op == 'add' else (roles - {ql.tag})
+            m.set(cur._replace(gschema=(gtag + ('+' if ql.op == 'add' else '-') + ql.tag, roles)))
         elif kind == 'alias':
-            m.set((cur[0], cur[1].set(ql.decl.alias, ql.decl.module), cur[2]))
+            m.set(cur._replace(aliases=cur[1].set(ql.decl.alias, ql.decl.module)))
         elif kind == 'reset_alias':
             qlast = self.isl['qlast']
             if isinstance(ql, qlast.SessionResetAllAliases):
@@ -438,14 +484,14 @@ class World:
                 al = cur[1].set(None, 'default')
             else:
                 al = cur[1].delete(ql.alias)
-            m.set((cur[0], al, cur[2]))
+            m.set(cur._replace(aliases=al))
         elif kind == 'config':
             conf = cur[2]
             if ql.cfg_value is None:
                 conf = conf.delete(ql.cfg_name) if ql.cfg_name in conf else conf
             else:
                 conf = conf.set(ql.cfg_name, ql.cfg_value)
-            m.set((cur[0], cur[1], conf))
+            m.set(cur._replace(config=conf))
 
     # -- one client message ------------------------------------------------------------
     def compile_message(self, stmts):
@@ -482,7 +528,7 @@ class World:
             dv.last_comp_state = blob
             return ug
         dv.live_for = None
-        ug, st = C.compile(user_schema=dv.db_user_schema, global_schema=self.G0, reflection_cache=E,
+        ug, st = C.compile(user_schema=dv.db_user_schema, global_schema=dv.get_global_schema(), reflection_cache=E,
                            database_config=E, system_config=E, request=req)
         if st is not None:
             blob = pickle.dumps(st, -1)
@@ -506,7 +552,7 @@ class World:
             self.in_block_steps += 1
 
         # backend failure decided up-front (so that the tape does not depend on outcomes)
-        eligible = kind in ('ddl', 'query', 'alias', 'reset_alias', 'config', 'commit') or (
+        eligible = kind in ('ddl', 'gddl', 'query', 'alias', 'reset_alias', 'config', 'commit') or (
             self.cfg['exotic'] and kind in ('start', 'declare', 'release', 'rollback', 'rollback_to'))
         befail = bool(self.cfg['pbefail']) and t.chance(self.cfg['pbefail'], 100, 'backend_fail') and eligible
 
@@ -580,10 +626,13 @@ class World:
         if kind == 'query' and not is_script:
             if not isl['observed'].get(self.obs_key):
                 raise HarnessError('query compiled without observation')
-            tag, al, cf = isl['observed'][self.obs_key][-1]
+            tag, al, cf, gtag = isl['observed'][self.obs_key][-1]
             exp = cur_before
-            if (tag, al, cf) != (exp[0][0], exp[1], exp[2]):
-                what = 'schema' if tag != exp[0][0] else 'aliases' if al != exp[1] else 'config'
+            if (tag, al, cf, gtag) != (exp[0][0], exp[1], exp[2], exp.gschema[0]):
+                what = ('schema' if tag != exp[0][0] else 'aliases' if al != exp[1] else
+                        'config' if cf != exp[2] else 'global-schema')
+                if what == 'global-schema':
+                    tag, exp = f'{tag}|{gtag}', exp._replace(schema=(f'{exp[0][0]}|{exp.gschema[0]}', exp[0][1]))
                 self.violate('T1', self.sig(f'visible-{what}:{where}'),
                              f'{self.describe(kinds)} was compiled against schema={tag} aliases={dict(al)} '
                              f'config={dict(cf)}; a PostgreSQL-style transaction exposes schema={exp[0][0]} '
@@ -706,11 +755,14 @@ class World:
                 continue
             if qi >= len(obs):
                 raise HarnessError('script query compiled without observation')
-            tag, al, cf = obs[qi]
+            tag, al, cf, gtag = obs[qi]
             qi += 1
             exp = before[i]
-            if (tag, al, cf) != (exp[0][0], exp[1], exp[2]):
-                what = 'schema' if tag != exp[0][0] else 'aliases' if al != exp[1] else 'config'
+            if (tag, al, cf, gtag) != (exp[0][0], exp[1], exp[2], exp.gschema[0]):
+                what = ('schema' if tag != exp[0][0] else 'aliases' if al != exp[1] else
+                        'config' if cf != exp[2] else 'global-schema')
+                if what == 'global-schema':
+                    tag, exp = f'{tag}|{gtag}', exp._replace(schema=(f'{exp[0][0]}|{exp.gschema[0]}', exp[0][1]))
                 self.violate('T1', self.sig(f'visible-{what}:{where}:script'),
                              f'statement {i + 1} of script [{label}] was compiled against schema={tag} '
                              f'aliases={dict(al)} config={dict(cf)}; expected schema={exp[0][0]} '
@@ -726,12 +778,15 @@ class World:
         # ---- execute_script (execute.pyx:441-660) ----
         was_in_tx = dv.in_tx
         user_schema = None
+        global_schema = None
         failed = False
         try:
             for i, unit in enumerate(ug):
                 dv.start_implicit(unit)
                 if unit.user_schema:
                     user_schema = unit.user_schema
+                if unit.global_schema:
+                    global_schema = unit.global_schema
                 if fail_at == i:
                     raise _BackendFailure()
                 for op in unit.config_ops:
@@ -756,7 +811,7 @@ class World:
                 m.err = True
             return
         if not was_in_tx:
-            dv.commit_implicit_tx(user_schema)
+            dv.commit_implicit_tx(user_schema, global_schema)
         self.hist.append(f'[{label}]')
         self.ev('script', label, 'ok', where)
         self.probes[f'cell:script:{where}:ok'] += 1
@@ -900,8 +955,8 @@ class World:
     def check_baseline(self, kind, kinds):
         dv, m = self.dv, self.m
         if not m.in_tx:
-            got = (dv.db_user_schema.tag, dv.modaliases, dv.config)
-            exp = (m.base[0][0], m.base[1], m.base[2])
+            got = (dv.db_user_schema.tag + '|' + dv.global_schema.tag, dv.modaliases, dv.config)
+            exp = (m.base[0][0] + '|' + m.base.gschema[0], m.base[1], m.base[2])
             if got != exp:
                 what = 'schema' if got[0] != exp[0] else 'aliases' if got[1] != exp[1] else 'config'
                 self.violate('T4', self.sig(f'baseline-{what}:after-{kind}'),
